@@ -37,7 +37,11 @@ RULE = ("purity: every call of the catalogue (VE/BP/CausalInference queries incl
         "EVERY answer of a sequence is compared with a fresh engine and the extracted model.  datarepr: scores, "
         "HillClimbSearch (cache on/off), ExhaustiveSearch, TreeSearch, fit on sampled data with string column names vs "
         "mixed-type / other-string / int / tuple names (results compared up to the renaming; pandas' own label "
-        "limitation for all-int and tuple labels is diagnosed and skipped).  Non-trivial: network has >=1 edge and the "
+        "limitation for all-int and tuple labels is diagnosed and skipped).  statenames: hand-built models in which a "
+        "child CPD labels its parent's axis with the same state names in the same order (accepted, = reference), in "
+        "ANOTHER order (same set; must be rejected by check_model and by VE/BP construction) or with another set "
+        "(rejected), each under three CPD insertion orders and both engines; outcomes must not depend on the "
+        "insertion order or the engine.  Non-trivial: network has >=1 edge and the "
         "question has an eliminated or observed variable; distinct = distinct (stream, call, network, question, "
         "representation)")
 TRUSTED_BASE = ["deep snapshots compare graph nodes/edges/latents, CPD scopes/cardinalities/values/state names, "
@@ -293,6 +297,20 @@ def cases(tier, seed):
         rep = gen_rep(rng, net)
         out.append({"kind": "repr", "net": net, "rep": rep, "Q": Q, "ev": ev, "engine": engine,
                     "backend": rng.choice(["torch64", "torch32"]), "hashseed": rng.choice(seeds)})
+    # ---- CPDs that disagree on the labelling of a shared variable's axis, under several CPD insertion orders
+    ns = 8 if tier == "quick" else 50
+    for variant in ("same", "reordered", "different_set"):
+        for _ in range(ns):
+            net = gen_connected_net(rng, rng.randint(2, 4), p=rng.choice([0.5, 0.8]))
+            rep = gen_rep(rng, net, names=rng.choice(["str", "int", "tuple"]), states="str")
+            child = rng.choice([i for i in range(net["n"]) if net["cpt"][i]["parents"]])
+            parent = rng.choice(net["cpt"][child]["parents"])
+            orders = [list(range(net["n"])), list(reversed(range(net["n"])))]
+            o3 = list(range(net["n"]))
+            rng.shuffle(o3)
+            orders.append(o3)
+            out.append({"kind": "statenames", "variant": variant, "net": net, "rep": rep, "child": child,
+                        "parent": parent, "orders": orders, "pseed": rng.randint(0, 10**9)})
     # ---- factor operations across backends / axis orders
     nf = 30 if tier == "quick" else 300
     for _ in range(nf):
@@ -379,7 +397,7 @@ def canon_cpt(net, i):
     return out
 
 
-def build(net, rep, with_state_names=True):
+def build(net, rep, with_state_names=True, sn_override=None, cpd_order=None, check=True):
     from pgmpy.models import BayesianNetwork
     from pgmpy.factors.discrete import TabularCPD
 
@@ -412,11 +430,15 @@ def build(net, rep, with_state_names=True):
                 row.append(float(ct[key]))
             vals.append(row)
         sn = {b.names[q]: b.snames[q] for q in [i] + ps}
+        if sn_override is not None and sn_override[0] == i:
+            # the child CPD labels the axis of its parent sn_override[1] differently; the TABLE is not transported
+            sn[b.names[sn_override[1]]] = list(sn_override[2])
         cpds[i] = TabularCPD(b.names[i], net["cards"][i], vals, evidence=[b.names[q] for q in ps] or None,
                              evidence_card=[net["cards"][q] for q in ps] or None, state_names=sn)
-    for i in rep["cpd_order"]:
+    for i in (cpd_order if cpd_order is not None else rep["cpd_order"]):
         m.add_cpds(cpds[i])
-    m.check_model()
+    if check:
+        m.check_model()
     b.model = m
     return b
 
@@ -656,6 +678,8 @@ def run_case(case, drv):
             return run_factor(case, drv)
         if k == "datarepr":
             return run_datarepr(case, drv)
+        if k == "statenames":
+            return run_statenames(case, drv)
     finally:
         if not backend_clean():
             from pgmpy import config
@@ -1514,3 +1538,76 @@ def run_datarepr(case, drv):
         return bad("renaming-changes-answer", {"call": call, "style": style, "string_names": str(want)[:400],
                                                "renamed": str(got)[:400]}, key=key, tags=tags)
     return ok(True, key, tags)
+
+
+# ------------------------------------------------------------------- CPDs disagreeing on a shared variable's labels
+def run_statenames(case, drv):
+    """A child CPD whose labelling of a parent's axis differs from the parent's own CPD (tables are combined
+    positionally, so such a model has no meaning): the verdict is rejection (ValueError from check_model and
+    from every engine constructor) for every CPD insertion order.  Whatever happens, the outcome must be the
+    same for all insertion orders and engines."""
+    from pgmpy.inference import VariableElimination, BeliefPropagation
+
+    net, rep, variant = case["net"], case["rep"], case["variant"]
+    child, parent = case["child"], case["parent"]
+    rng = random.Random(case["pseed"])
+    tags = ["statenames", "variant=" + variant, "names=" + rep["nstyle"], "n=%d" % net["n"]]
+    key = common.canon_key(["statenames", variant, net, rep, child, parent, case["orders"]])
+    b0 = build(net, rep, check=False)
+    own = list(b0.snames[parent])
+    override = None
+    if variant == "reordered":
+        perm = list(own)
+        while perm == own:
+            rng.shuffle(perm)
+        override = (child, parent, perm)
+    elif variant == "different_set":
+        other = list(own)
+        other[rng.randrange(len(other))] = "other_state"
+        override = (child, parent, other)
+    ref = {v: ref_posterior(drv, net, [v], []) for v in (parent, child)}
+    outcomes = {}
+    for oi, order in enumerate(case["orders"]):
+        for eng_name in ("check_model", "ve", "bp"):
+            b = build(net, rep, sn_override=override, cpd_order=order, check=False)
+            try:
+                if eng_name == "check_model":
+                    b.model.check_model()
+                    res = ("accepted", None)
+                else:
+                    eng = (VariableElimination if eng_name == "ve" else BeliefPropagation)(b.model)
+                    ans = {}
+                    for v in (parent, child):
+                        phi = eng.query([b.names[v]], show_progress=False)
+                        vals = np_values(phi.values)
+                        ans[v] = tuple(sorted((repr(phi.state_names[b.names[v]][k]), round(float(vals[k]), 9))
+                                              for k in range(len(vals))))
+                    res = ("accepted", tuple(sorted(ans.items())))
+            except ValueError as e:
+                res = ("rejected", None)
+            outcomes[(oi, eng_name)] = res
+    verdicts = {k: v[0] for k, v in outcomes.items()}
+    answers = {k: v[1] for k, v in outcomes.items() if v[0] == "accepted" and v[1] is not None}
+    detail = {"variant": variant, "child": child, "parent": parent, "own_order": [repr(x) for x in own],
+              "child_labels": None if override is None else [repr(x) for x in override[2]],
+              "orders": case["orders"], "verdicts": {"%d/%s" % k: v for k, v in verdicts.items()}}
+    if len(set(answers.values())) > 1:
+        detail["answers"] = {"%d/%s" % k: str(v)[:200] for k, v in answers.items()}
+        return bad("insertion-order-dependent-answer", detail, key=key, tags=tags)
+    if len(set(verdicts.values())) > 1:
+        return bad("insertion-order-dependent-verdict", detail, key=key, tags=tags)
+    verdict = next(iter(verdicts.values()))
+    if variant == "same":
+        if verdict != "accepted":
+            return bad("consistent-model-rejected", detail, key=key, tags=tags)
+        # and the accepted answer is the reference posterior
+        got = dict(next(iter(answers.values())))
+        for v in (parent, child):
+            want = {repr(b0.labels[v][c[0]]): float(p) for c, p in ref[v].items()}
+            for lab, val in got[v]:
+                if not common.approx(val, want[lab], 1e-8):
+                    return bad("impl!=model", dict(detail, var=v, got=got[v], want=want), key=key, tags=tags)
+    elif verdict != "rejected":
+        # a model whose CPDs label a shared axis differently has no positional meaning: the verdict is rejection
+        return bad("inconsistent-state-names-accepted", detail, key=key, tags=tags)
+    return ok(True, key, tags + ["verdict=" + verdict])
